@@ -254,9 +254,15 @@ func (s *Swarm) merge(buf []byte) (mesh.GossipData, error) {
 		return nil, err
 	}
 
+	// Remember which of the incoming subscriptions we considered active before merging
+	before := make(map[string]bool)
+	other.Subscriptions(func(ev *event.Subscription, _ event.Value) {
+		before[ev.Key()] = s.state.Has(ev)
+	})
+
 	// Merge and get the delta
 	delta := s.state.Merge(other)
-	other.Subscriptions(func(ev *event.Subscription, v event.Value) {
+	other.Subscriptions(func(ev *event.Subscription, _ event.Value) {
 		if ev.Peer == uint64(s.router.Ourself.Name) {
 			return // Skip ourselves
 		}
@@ -265,13 +271,17 @@ func (s *Swarm) merge(buf []byte) (mesh.GossipData, error) {
 		key := ev.Key()
 		peer := s.findPeer(mesh.PeerName(ev.Peer))
 
-		// If the subscription is added, notify (TODO: use channels)
-		if v.IsAdded() && peer.onSubscribe(key, ev.Ssid) && peer.IsActive() {
+		// The delta only tells what changed, whether the subscription is active
+		// or not is decided by the merged state
+		active := s.state.Has(ev)
+
+		// If the subscription became active, notify (TODO: use channels)
+		if active && !before[key] && peer.onSubscribe(key, ev.Ssid) && peer.IsActive() {
 			s.OnSubscribe(peer, ev)
 		}
 
-		// If the subscription is removed, notify (TODO: use channels)
-		if v.IsRemoved() && peer.onUnsubscribe(key, ev.Ssid) && peer.IsActive() {
+		// If the subscription ceased to be active, notify (TODO: use channels)
+		if !active && before[key] && peer.onUnsubscribe(key, ev.Ssid) && peer.IsActive() {
 			s.OnUnsubscribe(peer, ev)
 		}
 	})
